@@ -70,7 +70,7 @@ package boltz
 // the predicate that selects the referrers is built as the node `symbol in [id]` with the id as a string value and
 // then typed; it is never assembled as filter text (an id with quotes, backslashes or keywords is just a value)
 //@ func (*fkDeleteCascadeConstraint).ProcessBeforeDelete
-//@   props C04 C06
+//@   props C04 C06 C16
 //@   nosafety
 //@   modifies *, ocCnt, ocFn, ocRecv, cxN, cxWho, cxPhase, cxCtx, cxPersist, edDone, pdN, pdWho, pdId
 //@   callpre[predicate-is-symbol-in-id-as-a-value] PostProcess@1: istype(*arg1, *ast.InArrayExprNode) && istype(as(*arg1, *ast.InArrayExprNode).left, *ast.UntypedSymbolNode) && as(as(*arg1, *ast.InArrayExprNode).left, *ast.UntypedSymbolNode).symbol == esName(index.symbol) && istype(as(*arg1, *ast.InArrayExprNode).right, *ast.StringArrayNode) && len(as(as(*arg1, *ast.InArrayExprNode).right, *ast.StringArrayNode).values) == 1 && istype(as(as(*arg1, *ast.InArrayExprNode).right, *ast.StringArrayNode).values[0], *ast.StringConstNode) && as(as(as(*arg1, *ast.InArrayExprNode).right, *ast.StringArrayNode).values[0], *ast.StringConstNode).value == str(ctx.RowId)
